@@ -169,6 +169,9 @@ THEOREMS = [
     'C09.reset_refuses_five', 'C09.reset_over_determined_ignores_energy',
     # set_literal = numeral value times parsed factor
     'C09.set_literal_value_unit', 'C09.set_literal_eq_set_in_units',
+    # sessions: a call is answered from the scalings the last state-changing call left, whatever came before
+    'C09.session_reply_last', 'C09.session_state_after_reset', 'C09.session_state_after_rebase',
+    'C09.session_state_after_failed_reset', 'C09.session_chosen_units_one', 'C09.session_conversion_invariant',
     # generated tables: numericalunits table facts, LAMMPS style tables
     'C09.unit_table_ok', 'C09.style_table_dims', 'C09.style_table_names', 'C09.style_entry_scaling',
 ]
@@ -516,8 +519,9 @@ def lit_ok(w):
 
 
 NUMS = ['2', '3', '10', '5', '7', '0.5', '2.5', '.25', '1.', '4.0', '1e3', '1e-3', '2E2', '1.5e+2', '1e-21', '1e-18',
-        '0.1', '12', '100', '-2', '-1', '-0.5', '1', '6.02e23', '1.602e-19', '-3', '8', '0.125', '16', '1e0', '9', '0']
-EXPS = ['2', '3', '-1', '-2', '-3', '1', '2', '2', '-1', '3', '0', '2.0', '-2.0', '1e0', '2e0', '4', '-4']
+        '0.1', '12', '100', '-2', '-1', '-0.5', '1', '6.02e23', '1.602e-19', '-3', '8', '0.125', '16', '1e0', '9', '0',
+        '007', '010', '00.5', '-0', '-.5', '5.', '1E+2', '1e+02', '1e-03', '0e0', '0.0', '-08', '2.50', '1E0', '000']
+EXPS = ['2', '3', '-1', '-2', '-3', '1', '2', '2', '-1', '3', '0', '2.0', '-2.0', '1e0', '2e0', '4', '-4', '02', '-01', '2.']
 
 
 def gen_exp(rng):
@@ -541,6 +545,31 @@ def gen_tree(rng, depth, names, pleaf=0.18):
     if k == 'pow':
         return ('pow', gen_tree(rng, depth - 1, names, pleaf), gen_exp(rng))
     return (k, gen_tree(rng, depth - 1, names, pleaf), gen_tree(rng, depth - 1, names, pleaf))
+
+
+def deep_cases(names):
+    """nesting well beyond the random trees: redundant parentheses d deep, and chains nested to the right / in the
+    base of a power d deep (d = 8 … 40)."""
+    out = []
+    for d in (8, 12, 20, 40):
+        a, b, c = names[d % len(names)], names[(3 * d + 1) % len(names)], names[(7 * d + 2) % len(names)]
+        t = ('div', ('name', a), ('name', b))
+        out.append(('(' * d + a + '/' + b + ')' * d, t))
+        t = ('name', c)
+        s = c
+        for k in range(d):
+            n = names[(k * 5 + d) % len(names)]
+            if k % 2:
+                t, s = ('div', ('name', n), t), n + '/(' + s + ')'
+            else:
+                t, s = ('mul', ('name', n), t), n + ' * ( ' + s + ' )'
+        out.append((s, t))
+        t, s = ('name', a), a
+        for k in range(d):
+            e = ['2', '-1', '1', '-2'][k % 4]
+            t, s = ('pow', t, ('num', e)), '(' + s + ')^' + e
+        out.append((s, t))
+    return out
 
 
 def depth_of(t):
@@ -787,6 +816,16 @@ def gen_strings(rng, names, vals, n_valid, n_bad):
         if shadow_parse(s) != tree:
             raise cm.InfraError(f'harness self-check: shadow_parse(render(t)) != t for {tree_str(tree)} / {s!r}')
         out.append(('parse', s, tree))
+    for s, tree in deep_cases(rng.sample(names, min(len(names), 12))):
+        if shadow_parse(s) != tree:
+            raise cm.InfraError(f'harness self-check: shadow_parse of the deep case {s!r}')
+        try:
+            ev(tree, vals, None, EU)
+        except Outside:
+            continue
+        except EvalErr:
+            pass
+        out.append(('parse', s, tree))
     for _ in range(n_bad):
         if rng.random() < 0.25:
             s = rng.choice(MALFORMED)
@@ -897,11 +936,11 @@ def _corr_convert(ctx, rng, uc, cfg, n):
         if v == 0:
             continue
         s = render(rng, tree, 2, messy=rng.choice([0.0, 0.5]), extra=rng.choice([0.0, 0.2]))
-        shape = rng.choice([(), (), (3,), (2, 2), (1,), (2, 1, 3)])
+        shape = rng.choice([sh for sh in SHAPES if 0 not in sh])
+        form = rng.choice(FORMS)
         cnt = int(np.prod(shape)) if shape else 1
-        xs = [cm.dyadic(rng, -64, 64, 4) if rng.random() < 0.5 else rng.uniform(-1e3, 1e3) for _ in range(cnt)]
-        arr = np.array(xs).reshape(shape)
-        arg = arr if rng.random() < 0.5 else arr.tolist()
+        xs = gen_values(rng, form, cnt)
+        arg, arr = make_arg(np, xs, shape, form)
         for op, f in (('set', uc.set_in_units), ('get', uc.get_in_units)):
             try:
                 r = np.asarray(_timed(f, arg, s))
@@ -1225,6 +1264,15 @@ def euler_walk(n):
     return out[::-1]
 
 
+def pair_walk(n):
+    """A B A B for every unordered pair: both directions and both returns (A -> B -> A, B -> A -> B) consecutively."""
+    out = []
+    for i in range(n):
+        for j in range(i + 1, n):
+            out += [i, j, i, j]
+    return out
+
+
 def one_key_walk(rng, t, steps):
     """random walk over working-unit configurations changing exactly ONE keyword per step (another name of the kind,
     keyword dropped, keyword added), with excursions: SI, a seed, the temperature unit alone (numericalunits set
@@ -1246,6 +1294,10 @@ def one_key_walk(rng, t, steps):
             out.append({'kind': 'fail', 'kw': bad, 'leaves': 'SI'})
         elif r < 0.25:
             out.append({'kind': 'fail', 'kw': {k: rng.choice(t.by_kind[k]) for k in KINDS}, 'leaves': 'same'})
+        elif r < 0.33 and len(out) >= 2 and out[-2]['kind'] in ('named', 'SI', 'seed'):
+            out.append(dict(out[-2]))               # there and back
+            if out[-1]['kind'] == 'named':
+                kw = dict(out[-1]['kw'])
         else:
             for _ in range(50):
                 new = dict(kw)
@@ -1612,8 +1664,10 @@ def _names_of(tree):
 
 
 def run_sessions(ctx, rng, uc, mode, n_core, walk_steps, n_fresh, n_pairs):
-    """(1) every ordered pair of the first n_core core configurations, consecutively (closed Euler walk: the pool is
-    evaluated under A immediately before B is installed, for all A != B); (2) a one-keyword-at-a-time random walk."""
+    """(1) every ordered pair of the first n_core core configurations, consecutively: the pool is evaluated under A
+    immediately before B is installed, for all A != B (correspondence: closed Euler walk; search: A B A B for every
+    unordered pair, so that every return to a configuration after exactly one other is there too);
+    (2) a one-keyword-at-a-time random walk which also steps back to the configuration before the last."""
     t = _tab()
     pool = _Pool(rng, t)
     sess = _Session(ctx, uc, pool, mode)
@@ -1624,7 +1678,7 @@ def run_sessions(ctx, rng, uc, mode, n_core, walk_steps, n_fresh, n_pairs):
     core = core[:n_core] if n_core < len(core) else core
     rng.shuffle(core)
     prev = None
-    for i in euler_walk(len(core)):
+    for i in (pair_walk(len(core)) if mode == 'search' else euler_walk(len(core))):
         prev = sess.step(core[i], rng, prev, n_fresh, n_pairs)
     for cfg in one_key_walk(rng, t, walk_steps):
         prev = sess.step(cfg, rng, prev, n_fresh, n_pairs)
@@ -1755,21 +1809,99 @@ def _o_parse(ctx, uc, cfg, s, vals):
                     f'expression is {tree_str(cls[3]) if cls[3] else s} = {_f(v)!r}', dict(replay, impl=impl, expected=_f(v)))
 
 
-def _o_inverse(ctx, np, uc, cfg, s, xs, shape, as_list):
-    arr = np.array(xs, dtype=float).reshape(shape)
-    arg = arr.tolist() if as_list else arr
+FORMS = ['array', 'array', 'list', 'tuple', 'int-array', 'int32-array', 'int-list', 'mixed-list', 'np-scalar']
+SHAPES = [(), (), (3,), (2, 2), (2, 1, 3), (1,), (1, 1), (0,), (0, 3), (5,)]
+
+
+def _nest(flat, shape, seq):
+    if not shape:
+        return flat[0]
+    step = 1
+    for d in shape[1:]:
+        step *= d
+    return seq(_nest(flat[i * step:(i + 1) * step], shape[1:], seq) for i in range(shape[0]))
+
+
+def make_arg(np, xs, shape, form):
+    """the value as the caller holds it: float/int ndarray, (nested) list or tuple, python or numpy scalar.
+    -> (argument, reference float array)"""
+    ref = np.array(xs, dtype=float).reshape(shape)
+    if form == 'array':
+        return ref.copy(), ref
+    if form == 'int-array':
+        return np.array(xs, dtype=np.int64).reshape(shape), ref
+    if form == 'int32-array':
+        return np.array(xs, dtype=np.int32).reshape(shape), ref
+    if form == 'tuple':
+        return _nest(list(xs), tuple(shape), tuple), ref
+    if form == 'np-scalar' and not shape:
+        return (np.int64(xs[0]) if isinstance(xs[0], int) else np.float64(xs[0])), ref
+    return _nest(list(xs), tuple(shape), list), ref          # list, int-list, mixed-list: the entries as given
+
+
+def gen_values(rng, form, cnt):
+    if form.startswith('int'):
+        return [rng.choice([0, 1, -1, 2, 3, 7, -12, 100, rng.randint(-1000, 1000), 2 ** 31 - 1 if form == 'int32-array' else 2 ** 40])
+                for _ in range(cnt)]
+    out = [rng.choice([cm.dyadic(rng, -64, 64, 4), rng.uniform(-1e3, 1e3), rng.uniform(-1, 1) * 10.0 ** rng.randint(-12, 12)])
+           for _ in range(cnt)]
+    if form == 'mixed-list':
+        out = [rng.randint(-50, 50) if rng.random() < 0.5 else x for x in out]
+    return out
+
+
+def _same_arg(np, a, b):
+    if isinstance(a, np.ndarray):
+        return isinstance(b, np.ndarray) and a.dtype == b.dtype and a.shape == b.shape and np.array_equal(a, b)
+    return type(a) is type(b) and a == b
+
+
+def _o_inverse(ctx, np, uc, cfg, s, xs, shape, form, vals=None):
+    """round trip, forward value (x times the exact factor), shape kept, the caller's object left alone —
+    for float and integer arrays, lists, tuples, scalars, one-element and empty arrays."""
+    import copy
+    if form is True or form is False:            # replays written before the forms existed
+        form = 'list' if form else 'array'
+    shape = tuple(shape)
+    arg, ref = make_arg(np, xs, shape, form)
+    ref = np.asarray(arg, dtype=float)           # (an empty nested list has shape (0,) whatever was asked for)
+    keep = copy.deepcopy(arg)
+    replay = {'op': 'inverse', 'cfg': cfg, 'units': s, 'value': xs, 'shape': list(shape), 'form': form}
     w = _timed(uc.set_in_units, arg, s)
-    back = np.asarray(_timed(uc.get_in_units, w, s))
-    replay = {'op': 'inverse', 'cfg': cfg, 'units': s, 'value': xs, 'shape': list(shape), 'as_list': as_list}
-    if np.asarray(w).shape != arr.shape or back.shape != arr.shape:
-        ctx.violate('inverse:shape', f'set_in_units/get_in_units({s!r}) change the shape {arr.shape} -> '
-                    f'{np.asarray(w).shape} -> {back.shape}', replay)
+    back = _timed(uc.get_in_units, w, s)
+    if not _same_arg(np, arg, keep):
+        ctx.violate('inverse:argument-changed', f'set_in_units / get_in_units({s!r}) change the value handed in: '
+                    f'{keep!r} -> {arg!r}', replay)
         return
-    bad = [(x, b) for x, b in zip(arr.ravel().tolist(), back.ravel().tolist())
+    wa, back = np.asarray(w), np.asarray(back)
+    if wa.shape != ref.shape or back.shape != ref.shape:
+        ctx.violate('inverse:shape', f'set_in_units/get_in_units({s!r}) change the shape {ref.shape} -> '
+                    f'{wa.shape} -> {back.shape} ({form})', replay)
+        return
+    if wa.dtype.kind not in 'fiu' or back.dtype.kind not in 'fiu':
+        ctx.violate('inverse', f'set_in_units/get_in_units({s!r}) of {xs} ({form}) return dtype {wa.dtype} / {back.dtype}',
+                    replay)
+        return
+    bad = [(x, b) for x, b in zip(ref.ravel().tolist(), back.ravel().tolist())
            if not abs(b - x) <= 4 * U * abs(x)]
     if bad:
         ctx.violate('inverse', f'get_in_units(set_in_units(x, {s!r}), {s!r}) after {_cfg_str(cfg)}: x = {bad[0][0]!r} '
-                    f'comes back as {bad[0][1]!r}', replay)
+                    f'({form}) comes back as {bad[0][1]!r}', replay)
+        return
+    # forward: x times the factor the ordinary grammar gives the expression
+    if s is None or s == 'scaled':
+        v, e = Fraction(1), 0.0
+    else:
+        cls = classify(s, vals if vals is not None else _unit_fr(uc), 0.0)
+        if cls[0] != 'val':
+            return
+        v, e = cls[1], cls[2]
+    for x, g in zip(ref.ravel().tolist(), wa.ravel().tolist()):
+        want = Fraction(x) * v
+        if _mag_ok(want) and not abs(Fraction(g) - want) <= Fraction(_tol(want, e + 1)):
+            ctx.violate('convert:value', f'set_in_units({x!r} ({form}), {s!r}) after {_cfg_str(cfg)} = {g!r}; '
+                        f'{x!r} times the factor {_f(v)!r} is {_f(want)!r}', replay)
+            return
 
 
 def _base_expr(rng, t, dim):
@@ -1817,7 +1949,12 @@ def _o_indep(ctx, np, uc, s1, s2, xs, cfgs, si_vals, dims):
                 raise Outside('magnitude')
         except (Outside, EvalErr):
             continue            # an intermediate leaves the double range under these working units
-        got = np.asarray(_timed(uc.get_in_units, _timed(uc.set_in_units, np.array(xs), s1), s2)).tolist()
+        res = np.asarray(_timed(uc.get_in_units, _timed(uc.set_in_units, np.array(xs), s1), s2))
+        if res.shape != (len(xs),):
+            ctx.violate('inverse:shape', f'get_in_units(set_in_units(x, {s1!r}), {s2!r}) of an array of shape '
+                        f'{(len(xs),)} has shape {res.shape}', replay)
+            return
+        got = res.tolist()
         for g, w in zip(got, want):
             if g != g or abs(g) == float('inf') or not abs(Fraction(g) - w) <= Fraction(_tol(w, e1 + e2 + 2)):
                 ctx.violate('independence', f'{xs} [{s1}] in [{s2}] after {_cfg_str(cfg)} is {got}; in SI units it is '
@@ -1882,19 +2019,93 @@ def _o_style(ctx, uc, lmp, st, dims, cfgs):
                 break
 
 
-def _o_setlit(ctx, uc, cfg, value, s, sep, vals):
-    term = value + sep + s
+LIST_LITS = ['[1.0, 2.5]', '[1,2,3]', '(1.5, 2)', '[[1, 2], [3, 4]]', '[ 1.0 , -2.0 ]', '[7]', '(0.5,)',
+             '[1e3, 2.5e-3, -1.5E2]', '[[1.5], [2.5]]', '[0, 1]', '(1, 2, 3)', '[[1.0, 0.0, 0.0], [0.0, 1.0, 0.0]]']
+
+
+def read_literal(text):
+    """a number, or a (nested) list / tuple of numbers as python writes them -> Fraction or nested lists of Fractions;
+    None when the text is neither (independent of ast.literal_eval)."""
+    pos = [0]
+
+    def blanks():
+        while pos[0] < len(text) and text[pos[0]] in ' \t':
+            pos[0] += 1
+
+    def item():
+        blanks()
+        if pos[0] >= len(text):
+            return None
+        c = text[pos[0]]
+        if c in '[(':
+            close = ']' if c == '[' else ')'
+            pos[0] += 1
+            out, comma = [], False
+            while True:
+                blanks()
+                if pos[0] < len(text) and text[pos[0]] == close:
+                    pos[0] += 1
+                    break
+                x = item()
+                if x is None:
+                    return None
+                out.append(x)
+                blanks()
+                if pos[0] < len(text) and text[pos[0]] == ',':
+                    pos[0] += 1
+                    comma = True
+                elif pos[0] < len(text) and text[pos[0]] == close:
+                    pos[0] += 1
+                    break
+                else:
+                    return None
+            if c == '(' and len(out) == 1 and not comma:
+                return out[0]                       # a parenthesised number, not a tuple
+            return out
+        k = pos[0]
+        while k < len(text) and text[k] not in ' \t,[]()':
+            k += 1
+        w = text[pos[0]:k]
+        if not w or not lit_ok(w):
+            return None
+        pos[0] = k
+        return lit_value(w)
+    x = item()
+    blanks()
+    return x if pos[0] == len(text) else None
+
+
+def _flat(x):
+    if isinstance(x, list):
+        return [z for y in x for z in _flat(y)]
+    return [x]
+
+
+def _shape_of(x):
+    return (len(x),) + (_shape_of(x[0]) if x else ()) if isinstance(x, list) else ()
+
+
+def _o_setlit(ctx, uc, cfg, value, s, sep, vals, lead='', trail=''):
+    """'value unit' terms: blanks before the value and after the unit, no unit at all (with trailing blanks),
+    'scaled', list and tuple literals as values."""
+    np = _np()
+    term = lead + value + sep + s + trail
     cls = classify(s, vals, 0.0) if s else ('val', Fraction(1), 0.0, None)
-    if cls[0] != 'val':
+    val = read_literal(value)
+    if cls[0] != 'val' or val is None:
         return
-    want = lit_value(value) * cls[1]
+    want = [x * cls[1] for x in _flat(val)]
+    replay = {'op': 'setlit', 'cfg': cfg, 'value': value, 'units': s, 'sep': sep, 'lead': lead, 'trail': trail}
     try:
-        got = float(_timed(uc.set_literal, term))
+        r = np.asarray(_timed(uc.set_literal, term))
+        got = r.ravel().tolist() if r.shape == _shape_of(val) else f'an array of shape {r.shape}'
+    except Hang:
+        raise
     except Exception as ex:  # noqa
         got = f'{type(ex).__name__}: {ex}'
-    if isinstance(got, str) or not abs(Fraction(got) - want) <= Fraction(_tol(want, cls[2] + 2)):
+    if isinstance(got, str) or any(not abs(Fraction(g) - w) <= Fraction(_tol(w, cls[2] + 2)) for g, w in zip(got, want)):
         ctx.violate('set_literal', f'uc.set_literal({term!r}) after {_cfg_str(cfg)} = {got!r}; {value} [{s}] is '
-                    f'{float(want)!r}', {'op': 'setlit', 'cfg': cfg, 'value': value, 'units': s, 'sep': sep})
+                    f'{[float(w) for w in want] if isinstance(val, list) else float(want[0])!r}', replay)
 
 
 def _reset_cases(ctx, rng, t, reps):
@@ -1926,6 +2137,13 @@ def search(ctx, broken):
             if not abs(snap.get(n, 0.0) - 1.0) <= 64 * U:
                 ctx.violate('default-units', f"after `import atomman` unit[{n!r}] = {snap.get(n)!r}, not 1",
                             {'op': 'default'})
+        dsc = predict_scales(DEFAULT_KW, t.si)
+        for n, d in t.dims.items():              # … and the whole table is the angstrom / amu / eV / e one
+            pred = float(t.si[n]) * math.prod(x ** k for x, k in zip(dsc, d))
+            if n not in snap or not abs(snap[n] - pred) <= _table_bound(d) * abs(pred):
+                ctx.violate('default-units', f"after `import atomman` unit[{n!r}] = {snap.get(n)!r}; in angstrom / amu / "
+                            f"eV / e working units it is {pred!r}", {'op': 'default'})
+                break
         # 1. named working units: every non-over-determined choice of <= 4 kinds
         for kw in _reset_cases(ctx, rng, t, ctx.n(10, 120) * mult):
             ctx.stats.case('oracle:reset', tuple(sorted(kw.items())), sample={'kw': kw})
@@ -1945,21 +2163,24 @@ def search(ctx, broken):
                 _guard(ctx, 'parse', {'op': 'parse', 'cfg': cfg, 'string': s}, _o_parse, ctx, uc, cfg, s, vals)
             valid = [s for kind, s, tree in strings if kind == 'parse' and classify(s, vals, 0.0)[0] == 'val'
                      and classify(s, vals, 0.0)[1] != 0]
-            for s in [None, 'scaled'] + rng.sample(valid, min(len(valid), ctx.n(150, 1000) * mult)):
-                shape = rng.choice([(), (), (3,), (2, 2), (2, 1, 3)])
+            simple = [None, 'scaled'] * 4 + [n for n in ('angstrom', 'eV', 'GPa', 'amu', 'ps', 'K', 'e', '10', '0.5')] * 2
+            for s in simple + rng.sample(valid, min(len(valid), ctx.n(150, 1000) * mult)):
+                shape = rng.choice(SHAPES)
+                form = rng.choice(FORMS)
                 cnt = int(np.prod(shape)) if shape else 1
-                xs = [rng.choice([cm.dyadic(rng, -64, 64, 4), rng.uniform(-1e3, 1e3), rng.uniform(-1, 1) * 10.0 ** rng.randint(-12, 12)])
-                      for _ in range(cnt)]
-                as_list = rng.random() < 0.4
-                ctx.stats.case('oracle:inverse', (_cfg_str(cfg), s, tuple(xs)))
+                xs = gen_values(rng, form, cnt)
+                ctx.stats.case('oracle:inverse', (_cfg_str(cfg), s, tuple(xs), shape, form))
                 _guard(ctx, 'inverse', {'op': 'inverse', 'cfg': cfg, 'units': s, 'value': xs, 'shape': list(shape),
-                                        'as_list': as_list}, _o_inverse, ctx, np, uc, cfg, s, xs, shape, as_list)
-            for s in [''] + rng.sample(valid, min(len(valid), ctx.n(100, 600) * mult)):
-                value = rng.choice(VALUE_LITS)
-                sep = rng.choice([' ', '  ', ' \t']) if s else ''
-                ctx.stats.case('oracle:set_literal', (_cfg_str(cfg), value, s))
-                _guard(ctx, 'set_literal', {'op': 'setlit', 'cfg': cfg, 'value': value, 'units': s, 'sep': sep},
-                       _o_setlit, ctx, uc, cfg, value, s, sep, vals)
+                                        'form': form}, _o_inverse, ctx, np, uc, cfg, s, xs, shape, form, vals)
+            simple = ['', 'scaled', 'angstrom', 'eV', 'GPa', 'kg * m', 'eV/angstrom^3', ' ( m ) ']
+            for s in simple * 6 + rng.sample(valid, min(len(valid), ctx.n(100, 600) * mult)):
+                value = rng.choice(VALUE_LITS if rng.random() < 0.65 else LIST_LITS)
+                sep = rng.choice([' ', '  ', ' \t', '   ']) if s else ''
+                lead, trail = rng.choice(['', '', ' ', '  ']), rng.choice(['', '', ' ', '  '])
+                ctx.stats.case('oracle:set_literal', (_cfg_str(cfg), lead, value, sep, s, trail))
+                _guard(ctx, 'set_literal', {'op': 'setlit', 'cfg': cfg, 'value': value, 'units': s, 'sep': sep,
+                                            'lead': lead, 'trail': trail},
+                       _o_setlit, ctx, uc, cfg, value, s, sep, vals, lead, trail)
         # 4. working-unit independence
         pairs = list(SAME_DIM)
         tries = 0
@@ -2027,7 +2248,8 @@ def replay(ctx, payload):
                     ctx.disagree('parse', msg, r)
         elif op == 'inverse':
             _apply(cfg)
-            _guard(ctx, 'inverse', r, _o_inverse, ctx, np, uc, cfg, r['units'], r['value'], tuple(r['shape']), r.get('as_list', False))
+            _guard(ctx, 'inverse', r, _o_inverse, ctx, np, uc, cfg, r['units'], r['value'], tuple(r['shape']),
+                   r.get('form', r.get('as_list', False)))
         elif op == 'indep':
             _apply({'kind': 'SI'})
             si_vals = _unit_fr(uc)
@@ -2044,7 +2266,8 @@ def replay(ctx, payload):
                 _corr_styles(ctx, uc)
         elif op == 'setlit' and 'value' in r:
             _apply(cfg)
-            _guard(ctx, 'set_literal', r, _o_setlit, ctx, uc, cfg, r['value'], r['units'], r['sep'], _unit_fr(uc))
+            _guard(ctx, 'set_literal', r, _o_setlit, ctx, uc, cfg, r['value'], r['units'], r['sep'], _unit_fr(uc),
+                   r.get('lead', ''), r.get('trail', ''))
         elif op == 'session' and r.get('steps'):
             # the stored tail of the history (the pool is evaluated after every step, the stored strings first)
             rs = random.Random(0)
